@@ -153,7 +153,7 @@ def run_to_array(run):
   item_template = run['runs']['0']
   shape = (run['basis'], len(item_template)) if hasattr(item_template, '__len__') else (run['basis'],)
   _array = np.zeros(shape)
-  points = list(run['runs'].keys())
+  points = sorted(run['runs'].keys(), key=int)
   for i,v in enumerate(points):
     e = int(points[i+1]) if i < len(points) - 1 else run['basis']
     _array[int(v):e] = run['runs'][v]
@@ -162,7 +162,7 @@ def run_to_array(run):
 
 def run_to_cbounds_array(run):
   _array = []
-  points = list(run['runs'].keys())
+  points = sorted(run['runs'].keys(), key=int)
   for i,v in enumerate(points):
     [l, h] = run['runs'][v]
     e = int(points[i+1]) if i < len(points) - 1 else run['basis']
